@@ -398,6 +398,15 @@ def copy_before_consume_sites(fb):
             continue
         appends = {b for b, c in calls if APPEND_RX.search(c.get("f") or "")
                    and any(R.derives_from_call(f, a, is_fill) for a in c["args"][1:])}
+        # ... or through a helper of the same crate that is handed the window and appends it (push_utf8(dst, partial, window))
+        for b, c in calls:
+            g = fb.fns.get(c.get("f") or "")
+            if g is None or g.is_closure or g.crate != f.crate:
+                continue
+            win = [i for i, a in enumerate(c["args"]) if R.derives_from_call(f, a, is_fill)]
+            if win and any(APPEND_RX.search(gc.get("f") or "") and any(R.derives_from_local(g, a, i + 1) for i in win for a in gc["args"][1:])
+                           for _gb, gc in g.calls()):
+                appends.add(b)
         if not appends:
             continue      # a pure skipper (discard_line, consume_line)
         bad = None
@@ -415,4 +424,67 @@ def copy_before_consume_sites(fb):
             if bad is not None:
                 break
         out.append({"fn": k, "ok": bad is None, "bad": bad, "appends": sorted(appends)})
+    return out
+
+
+# ------------------------------------------------------------------------------------------------
+# A5d refinement: a multi-byte unit decoder fed one fill_buf window at a time
+# ------------------------------------------------------------------------------------------------
+
+UNIT_DECODER_RX = re.compile(r"(core::str::converts::from_utf8|alloc::string::String::from_utf8)$")
+
+
+def window_decoder_sites(fb):
+    """Calls of a UTF-8 validator on bytes of ONE fill_buf window inside a scanning loop (directly, or in a helper that is
+    handed the window). A character may straddle two windows, so the decoder's error must not be final: the site is ok
+    iff some path from the Err edge of the result reaches a success exit (the incomplete tail is carried over).
+    Returns list of dict(fn, block, ok, via)."""
+    is_fill = R.mk_pred(r"::(fill_buf|poll_fill_buf)$")
+    out = []
+
+    def check(f, b, c, via):
+        dest = c["dest"][0]
+        ex = set(C.success_exit_blocks(f))
+        handled = False
+        seen_switch = False
+        for sb, blk in enumerate(f.blocks):
+            if blk.get("cu") or blk["t"][0] != "sw":
+                continue
+            cond = C.switch_condition(f, sb)
+            if not cond or cond[0] != "discr":
+                continue
+            base = cond[1][0]
+            if base != dest and not R.derives_from_local(f, ["c", [base, []]], dest, through_calls=True):
+                continue
+            seen_switch = True
+            vals = dict((v, tg) for v, tg in blk["t"][2])
+            err_t = vals.get(1, blk["t"][3] if 0 in vals else None)
+            if err_t is None:
+                continue
+            if ex & C.reachable(f, err_t):
+                handled = True
+        out.append({"fn": f.key, "block": b, "ok": handled, "via": via, "switch_seen": seen_switch})
+
+    for k, f in sorted(fb.fns.items()):
+        if not in_scope(f):
+            continue
+        calls = list(f.calls())
+        if not any(is_fill(c.get("f") or "") and in_loop(f, b) for b, c in calls):
+            continue
+        for b, c in calls:
+            fk = c.get("f") or ""
+            win_args = [i for i, a in enumerate(c["args"]) if R.derives_from_call(f, a, is_fill)]
+            if not win_args:
+                continue
+            if UNIT_DECODER_RX.search(fk):
+                check(f, b, c, None)
+                continue
+            g = fb.fns.get(fk)
+            if g is None or g.is_closure or g.crate != f.crate:
+                continue
+            # helper handed the window: its parameter is window-derived
+            for gb, gc in g.calls():
+                if UNIT_DECODER_RX.search(gc.get("f") or "") and any(
+                        any(R.derives_from_local(g, a, i + 1) for i in win_args) for a in gc["args"]):
+                    check(g, gb, gc, f.key)
     return out
